@@ -102,13 +102,19 @@ def _pair(d):
     return [tok_f(d.min_error_rate), tok_f(d.min_std)]
 
 
+def qcount(q) -> int:
+    """number of items a queue-like object holds: its `count` attribute (the library's circular queues), or its length (a deque / list subclass, whose `count` is a method)"""
+    c = getattr(q, "count", None)
+    return int(c) if isinstance(c, (int, np.integer)) else len(q)
+
+
 def obs(cls: str, d) -> list[str]:
     """the observation compared with the model's; an attribute that cannot be read (renamed, removed) makes the observation `unreadable:<what>` - a broken
     correspondence for the comparison to report, not a crash of the check"""
     try:
         return _obs(cls, d)
-    except AttributeError as e:
-        return ["unreadable:" + str(e).replace(" ", "_")[:80]]
+    except (AttributeError, TypeError, ValueError, KeyError, IndexError) as e:
+        return ["unreadable:" + type(e).__name__ + ":" + str(e).replace(" ", "_")[:80]]
 
 
 def _obs(cls: str, d) -> list[str]:
@@ -117,7 +123,7 @@ def _obs(cls: str, d) -> list[str]:
         return head + [tok_b(d.warning), tok_f(d.error_rate.mean), tok_i(d.error_rate.num_values)] + _pair(d)
     if cls == "RDDM":
         return head + [tok_b(d.warning), tok_f(d.error_rate.mean), tok_i(d.error_rate.num_values)] + _pair(d) + [
-            tok_i(d.num_warnings), tok_b(d.rddm_drift), tok_i(d.predictions.count)]
+            tok_i(d.num_warnings), tok_b(d.rddm_drift), tok_i(qcount(d.predictions))]
     if cls == "EDDM":
         return head + [tok_b(d.warning), tok_f(d.mean_distance_error), tok_f(d.std_distance_error),
                        tok_f(d.variance_distance_error), tok_f(d.max_distance_threshold),
@@ -145,7 +151,7 @@ def _obs(cls: str, d) -> list[str]:
     if cls == "KSWIN":
         return head + ["-", tok_i(len(d.window))]
     if cls == "STEPD":
-        return head + [tok_b(d.warning), tok_i(d.correct_total), tok_i(d.window_accuracy.count),
+        return head + [tok_b(d.warning), tok_i(d.correct_total), tok_i(qcount(d.window_accuracy)),
                        tok_i(d.window_accuracy.num_true)]
     if cls in ("CUSUM", "PageHinkley", "GeometricMovingAverage"):
         return head + ["-", tok_f(d.sum_), tok_f(d.mean_error_rate.mean)]
@@ -317,7 +323,17 @@ def canon_public(v, depth=0):
     if isinstance(v, (np.random.Generator, np.random.RandomState)):
         return ("rng", type(v).__name__)
     if hasattr(v, "__dict__") and depth < 10:
-        return ("obj", type(v).__name__, canon_public({k: x for k, x in vars(v).items() if k not in ("_callbacks", "detector")}, depth + 1))
+        # an object handed out by a public property (a running mean, a test object ...) is read the way the detector is: through ITS public properties and public
+        # instance attributes - its private fields (a memo table of bounds, a cache) are not observations
+        pub = {}
+        for name in dir(type(v)):
+            if not name.startswith("_") and isinstance(getattr(type(v), name, None), property):
+                try:
+                    pub[name] = getattr(v, name)
+                except Exception as e:  # noqa: BLE001
+                    pub[name] = "raises:" + type(e).__name__
+        pub.update({k: x for k, x in vars(v).items() if not k.startswith("_") and k not in ("detector", "callbacks")})
+        return ("obj", type(v).__name__, canon_public(pub, depth + 1))
     return ("opaque", type(v).__name__)
 
 
